@@ -48,7 +48,9 @@ func (dw *defaultWalkerPipeline) worker(ctx context.Context, wg *sync.WaitGroup,
 			if !ok {
 				return
 			}
+			verifPoint("walk.recv")
 			if err := dw.walkNode(root, callback); err != nil {
+				verifPoint("walk.err")
 				errc <- err
 			}
 		}
